@@ -23,8 +23,14 @@ python3 - "$id" "$prop" "$pkg" "$re" "$clean" "$mut" "$suitefail" "$caught" "$cl
 import json,sys,re
 id,prop,pkg,rx,clean,mut,suitefail,caught,clauses=sys.argv[1:]
 notes=open(f'/verif/seeded/{id}/notes.md').read() if __import__('os').path.exists(f'/verif/seeded/{id}/notes.md') else ''
+def needs(n):
+    import re
+    paras=[p.strip() for p in re.split(r'\n\s*\n', n) if re.search(r'(?i)trigger|manifest|needs', p)]
+    t=' '.join(' '.join(paras[:2]).split())
+    return (t[:700] if t else 'see notes.md')+' [from the authoring sub-agent\'s notes.md]'
+
 m={ "id":id, "breaks_property":prop,
-    "needs_to_manifest":"see notes.md (written by the independent sub-agent that authored the change)",
+    "needs_to_manifest":needs(notes),
     "demo":{"place_in":pkg, "run":f"go test -count=1 -run '{rx}' ./{pkg}/", "passes_on_clean_tree":clean=="1", "fails_with_change":mut=="1"},
     "repository_tests_with_change":"go test -count=1 ./message/... ./pubsub/... ./components/... : "+("pass" if suitefail=="0" else "FAILURES (see notes; flaky tests re-checked on the clean tree)"),
     "what_i_ran":["tools/confirm_seed.sh (scratch copy of /repo: demo on clean tree, apply patch, go build ./... with and without -tags verif, demo again, repository tests)", f"tools/seedtest.sh patch.diff quick {prop} (check built against the patched scratch copy via VERIF_REPO)"],
